@@ -57,6 +57,10 @@ TOKENS = [
     ("flag", "workers", ["--max-workers", "2"]),
     ("flag", "pathinc", ["--path-include", "*.py"]),
     ("flag", "logjson", ["--log-format", "json"]),
+    ("flag", "fmtdiff", ["--output-format", "diff"]),      # accepted choices that change nothing about the status
+    ("flag", "nodry", ["--no-dry-run"]),
+    ("flag", "verbose", ["--verbose"]),
+    ("flag", "contrast", ["--contrast-vulnerabilities-xml", "{res}/contrast.xml"]),
 ]
 # a missing operand can only be modelled as "error when met" at the very end of argv
 LAST_ONLY = [("bad", "noperand", ["--project-name"]), ("bad", "noperand2", ["--output"])]
@@ -74,6 +78,7 @@ RESFILES = {
     "sonar.json": {"issues": []},
     "hotspots.json": {"hotspots": []},
     "dojo.json": {"results": []},
+    "contrast.xml": "<vulnerabilities></vulnerabilities>\n",
 }
 
 ENVS = {
